@@ -94,10 +94,11 @@ def lam(p, body):
 class Pred:
     """Boolean predicates over a child style (style idents) or over a BlockItem (`item`)."""
 
-    def __init__(self, variants, style_idents=(), item_ident=None):
+    def __init__(self, variants, style_idents=(), item_ident=None, child_ident=None):
         self.variants = variants
         self.style_idents = set(style_idents)
         self.item_ident = item_ident
+        self.child_ident = child_ident
 
     def enum_expr(self, a):
         """-> (enum name, Coq term)"""
@@ -108,6 +109,9 @@ class Pred:
         if a[0] == 'mcall' and a[1][0] == 'path' and len(a[1][1]) == 1 and a[1][1][0] in self.style_idents \
                 and a[2] in STYLE_ACCESSORS and a[3] == []:
             return STYLE_ACCESSORS[a[2]], '(%s %s)' % (a[2], a[1][1][0])
+        if a[0] == 'mcall' and is_style_lookup(a[1]) and len(a[1][3]) == 1 and a[1][3][0] == ('path', [self.child_ident]) \
+                and a[2] in STYLE_ACCESSORS and a[3] == []:
+            return STYLE_ACCESSORS[a[2]], 'child_%s' % a[2]
         if a[0] == 'field' and a[1] == ('path', [self.item_ident]) and a[2] in ITEM_ENUM_FIELDS:
             return ITEM_ENUM_FIELDS[a[2]], 'item_%s' % a[2]
         raise Refuse('enum-valued expression %r' % (a,))
@@ -333,6 +337,24 @@ def loop_visits(blk, variants, items_ident='items'):
 
 ITEM_PARAMS = '(item_position : GPosition) (item_can_be_collapsed_through : bool)'
 
+NODE_CALLS = ('perform_child_layout', 'measure_child_size', 'set_unrounded_layout', 'compute_child_layout', 'get_block_child_style')
+PURE_CALLS = ('calc',)
+
+
+def tree_calls_on_item(blk, item, what):
+    """every method call on `tree` inside blk is `calc` or addresses `<item>.node_id`; returns the calls found"""
+    calls = find_all(blk, lambda n: n[0] == 'mcall' and n[1] == ('path', ['tree']))
+    seen = []
+    for c in calls:
+        if c[2] in PURE_CALLS:
+            continue
+        if c[2] not in NODE_CALLS:
+            raise Refuse('%s: unexpected call tree.%s' % (what, c[2]))
+        if not c[3] or c[3][0] != ('field', ('path', [item]), 'node_id'):
+            raise Refuse('%s: tree.%s is not addressed to %s.node_id' % (what, c[2], item))
+        seen.append(c[2])
+    return seen
+
 
 def generate(repo):
     fps = {}
@@ -477,6 +499,44 @@ def generate(repo):
     w('(* checked syntactically: the absolute branch of the in-flow loop consists of assignments to fields of `item`')
     w('   (%s) and does not mention `tree` *)' % ', '.join('item.' + s[2][2] for s in stmts))
     w('Definition block_inflow_absolute_branch_is_local : bool := true.')
+    seen = tree_calls_on_item(loop[3], item, 'in-flow loop')
+    _, body, _ = find_fn(btoks, 'determine_content_based_container_width')
+    _, wloop = loop_visits(parse_block(body), variants)
+    seen += tree_calls_on_item(wloop[3], wloop[1][1], 'content-based width loop')
+    _, body, _ = find_fn(btoks, 'perform_absolute_layout_on_absolute_children')
+    fps['block::perform_absolute_layout_on_absolute_children'] = norm_tokens(body)
+    ablk = parse_block(body)
+    term, aloop = loop_visits(ablk, variants)
+    w('Definition block_absolute_pass_visits %s : bool :=\n  %s.' % (ITEM_PARAMS, term))
+    seen_abs = tree_calls_on_item(aloop[3], aloop[1][1], 'absolute pass')
+    outside = [c for c in find_all(ablk, lambda n: n[0] == 'mcall' and n[1] == ('path', ['tree']) and n[2] not in PURE_CALLS)]
+    if len(outside) != len(seen_abs):
+        raise Refuse('absolute pass: a tree call outside the item loop')
+    w('(* checked syntactically: in the in-flow loop, the content-based-width loop and the absolute pass of block.rs every method')
+    w('   call on `tree` is `calc` or has `item.node_id` as its node argument (%s | %s) *)' % (' '.join(seen), ' '.join(seen_abs)))
+    w('Definition block_tree_calls_address_item_only : bool := true.')
+    # step 5 of compute_inner: which children get the hidden layout
+    fors = [st[1] for st in cblk[1] if st[0] == 'expr' and st[1][0] == 'for']
+    if len(fors) != 1:
+        raise Refuse('compute_inner: expected exactly one top-level for loop (hidden children)')
+    hp, hit, hbody = fors[0][1], fors[0][2], fors[0][3]
+    if hp[0] != 'pident' or hit[0] != 'range' or hit[1] != ('lit', '0'):
+        raise Refuse('hidden loop header')
+    order = hp[1]
+    if len(hbody[1]) + (1 if hbody[2] is not None else 0) != 2 or hbody[1][0][0] != 'let' or hbody[1][0][1][0] != 'pident':
+        raise Refuse('hidden loop body')
+    child = hbody[1][0][1][1]
+    if hbody[1][0][2] != ('mcall', ('path', ['tree']), 'get_child_id', [('path', ['node_id']), ('path', [order])]):
+        raise Refuse('hidden loop: child is not tree.get_child_id(node, %s)' % order)
+    hif = hbody[2] if hbody[2] is not None else hbody[1][1][1]
+    if hif[0] != 'if' or hif[3] is not None:
+        raise Refuse('hidden loop: if')
+    fps['block::hidden_pass'] = repr(fors[0])
+    w('Definition block_hidden_pass_visits (child_box_generation_mode : GBoxGenerationMode) (child_position : GPosition) : bool :=\n  %s.'
+      % Pred(variants, child_ident=child).b(hif[1]))
+    for c in find_all(hif[2], lambda n: n[0] == 'mcall' and n[1] == ('path', ['tree']) and n[2] not in PURE_CALLS):
+        if c[2] not in ('perform_child_layout', 'set_unrounded_layout') or not c[3] or c[3][0] != ('path', [child]):
+            raise Refuse('hidden loop: tree.%s' % c[2])
     return '\n'.join(out) + '\n', fps
 
 
